@@ -228,6 +228,8 @@ class FuncEffects(object):
                 r = self._name_roots(n.target.id, n.lineno, set())
                 if n.target.id in self.globals_decl:
                     out.append((n, 'global-augassign', n.target.id, r))
+                elif _immutable_rhs(n.value):
+                    pass    # str/number accumulation rebinds the name
                 elif isinstance(n.op, (ast.Add, ast.BitOr, ast.BitAnd,
                                        ast.Sub, ast.Mult)):
                     # in-place for lists/sets/dicts: only matters when the
@@ -258,6 +260,27 @@ class FuncEffects(object):
                 continue
             res.append((node, how, text, vis))
         return res
+
+
+def _immutable_rhs(v):
+    """RHS evidently a str or a number: `x += <that>` cannot mutate in
+    place."""
+    if isinstance(v, ast.Constant):
+        return True
+    if isinstance(v, ast.JoinedStr):
+        return True
+    if isinstance(v, ast.BinOp):
+        return _immutable_rhs(v.left) or _immutable_rhs(v.right)
+    if isinstance(v, ast.UnaryOp):
+        return _immutable_rhs(v.operand)
+    if isinstance(v, ast.Call) and dotted(v.func) in (
+            'str', 'int', 'float', 'len', 'repr', 'abs', 'sum', 'min', 'max'):
+        return True
+    if isinstance(v, ast.Call) and isinstance(v.func, ast.Attribute) \
+            and v.func.attr in ('__str__', 'format', 'join', 'GetSymbol',
+                                'GetFormalCharge', 'GetNumRadicalElectrons'):
+        return True
+    return False
 
 
 def module_level_names(tree):
